@@ -1,16 +1,134 @@
-"""C09 - see canon.py (shared pipeline of C01/C02/C09) and spec/Canon.tla, spec/Trace_Canon.tla, spec/TreeGen.tla."""
+"""C09 - every node gets a unique id and author ids are kept; ids handed out later are ids of the returned MathML.
+
+Stage 1 (returned tree): canon.py pipeline, id predicates of Canon.tla judged by TLC (Trace_Canon.tla).
+Stage 2 (ids handed out later): for expressions with and without author ids: bookmark marks in speech (SSML/SAPI5),
+  the node under each braille cell, and the navigation node after every command of seeded walks (incl.
+  set_navigation_node with character offsets and MoveTo of unset markers) - judged by TLC (Trace_Ids.tla)."""
+import json
+import random
+import re
+import time
+
 import canon
+import common as C
+import c11
+import mml
 
 PID = "C09"
 
 
+def handout_scripts(tier):
+    rng = random.Random(C.seed() + 9)
+    exprs = [c["mathml"] for c in mml.corpus() if 60 < len(c["mathml"]) < 1500]
+    n = 120 if tier == "quick" else 1500
+    commands = c11.nav_commands()
+    moves = [c for c in commands if c11.cmd_class(c) in ("Move", "Zoom")]
+    scripts = []
+    for i in range(n):
+        e = rng.choice(exprs)
+        if "id=" not in e:
+            e = canon.add_ids(e, ["none", "all", "alternate"][i % 3], rng)
+        tts = ["SSML", "SAPI5"][i % 2]
+        ops = [{"op": "set_rules_dir", "dir": "$RULES"},
+               {"op": "set_pref", "name": "TTS", "value": tts}, {"op": "set_pref", "name": "Bookmark", "value": "true"},
+               {"op": "set_pref", "name": "BrailleCode", "value": ["Nemeth", "UEB", "CMU"][i % 3]},
+               {"op": "set_pref", "name": "NavMode", "value": ["Enhanced", "Simple", "Character"][i % 3]},
+               {"op": "set_mathml", "mathml": e}, {"op": "speech"}, {"op": "overview"}]
+        for p in range(0, 14, 2):
+            ops.append({"op": "node_from_braille", "pos": p})
+        for k in range(14):
+            x = rng.random()
+            if x < 0.25:
+                ops.append({"op": "set_nav_node", "id": "${ID:%d}" % rng.randrange(40), "offset": rng.choice([0, 1, 1, 2])})
+            elif x < 0.45:
+                ops.append({"op": "nav_cmd", "cmd": f"MoveTo{rng.randrange(10)}"})
+            elif x < 0.55:
+                ops.append({"op": "nav_key", "key": 48 + rng.randrange(10), "shift": False, "ctrl": False, "alt": False, "meta": False})
+            elif x < 0.65:
+                ops.append({"op": "nav_cmd", "cmd": f"SetPlacemarker{rng.randrange(10)}"})
+            else:
+                ops.append({"op": "nav_cmd", "cmd": rng.choice(moves + ["MoveLastLocation"])})
+            ops.append({"op": "nav_id"})
+        scripts.append({"id": f"handout{i}", "ops": ops})
+    return scripts
+
+
+def handout_events(scripts, results):
+    events, back = [], []
+    for si, (s, r) in enumerate(zip(scripts, results)):
+        ids = None
+        for oi, (op, rr) in enumerate(zip(s["ops"], r["results"])):
+            if op["op"] == "set_mathml":
+                t = mml.parse(rr["v"], expand=False) if rr["r"] == "ok" else None
+                ids = mml.ids(t) if t else None
+                continue
+            if ids is None or rr["r"] != "ok":
+                continue
+            handed, kind = None, op["op"]
+            if op["op"] in ("speech", "overview"):
+                handed = re.findall(r"<mark name=['\"]([^'\"]*)['\"]", rr["v"]) + re.findall(r"<bookmark mark=['\"]([^'\"]*)['\"]", rr["v"])
+                kind = "bookmark-in-" + op["op"]
+            elif op["op"] == "node_from_braille":
+                handed = [rr["v"][0]]
+            elif op["op"] == "nav_id":
+                handed = [rr["v"][0]]
+                prev = s["ops"][oi - 1]
+                kind = "navigation-node-after-" + re.sub(r"\d", "N", prev.get("cmd", prev["op"]))
+            if handed is None:
+                continue
+            events.append({"ids": ids, "handed": handed, "kind": kind})
+            back.append((si, oi))
+    return events, back
+
+
 def run(tier):
-    return canon.run(PID, tier)
+    t0 = time.time()
+    rc1 = canon.run(PID, tier)
+    ev1 = json.load(open(f"{C.EVIDENCE}/{PID}.json"))
+    wd = C.workdir("c09_handout")
+    scripts = handout_scripts(tier)
+    results = C.run_mcv(scripts, wd, name="handout", timeout_ms=30000)
+    events, back = handout_events(scripts, results)
+    rejects, _, _ = C.validate_trace("Trace_Ids", "Trace_Ids.cfg", events, wd, name="ids")
+    verdict = C.Verdict(PID)
+    for idx, reason in rejects:
+        si, oi = back[idx - 1]
+        e = events[idx - 1]
+        foreign = sorted(set(e["handed"]) - set(e["ids"]))
+        hist = [o.get("cmd", o["op"]) for o in scripts[si]["ops"][5:oi + 1] if o["op"] not in ("nav_id",)]
+        verdict.reject(f"{reason}|{'>'.join(re.sub(chr(92) + 'd', 'N', h) for h in hist[-2:])}",
+                       f"{reason}: id(s) {foreign} handed out after {hist[-4:]} are not ids of the returned MathML",
+                       {"script": scripts[si]["ops"][:oi + 1]}, text=f"{reason} {hist[-3:]}")
+    rc2 = verdict.finish(wd)
+    cov = ev1["coverage"]
+    cov["handed_out_id_events"] = len(events)
+    cov["handed_out_id_events_rejected"] = len(rejects)
+    cov["handed_out_kinds"] = sorted({e["kind"] for e in events})[:40]
+    cov["traces_validated_against_impl"] += len(scripts)
+    cov["evaluations"] += len(events)
+    C.write_evidence(PID, tier, "model_checking", cov, time.time() - t0, ev1.get("violations", 0) + len(verdict.violations),
+                     ev1.get("assumptions"))
+    return 1 if (rc1 or rc2) else 0
 
 
 def replay(path):
+    rp = json.load(open(path))["replay"]
+    if any(o["op"] != "set_mathml" and o["op"] != "set_rules_dir" and o["op"] != "set_pref" for o in rp["script"]):
+        wd = C.workdir("c09_replay")
+        s = {"id": "replay", "ops": rp["script"]}
+        res = C.run_mcv([s], wd, threads=1)
+        events, _ = handout_events([s], res)
+        rejects, _, _ = C.validate_trace("Trace_Ids", "Trace_Ids.cfg", events, wd)
+        C.log(f"rejected: {rejects}")
+        return 1 if rejects else 0
     return canon.replay(PID, path)
 
 
 def selftest(tier):
-    return canon.selftest(PID)
+    canon.selftest(PID)
+    wd = C.workdir("c09_self")
+    ev = [{"ids": ["a", "b"], "handed": ["a"], "kind": "x"}, {"ids": ["a", "b"], "handed": ["!not set"], "kind": "y"}]
+    rej, _, _ = C.validate_trace("Trace_Ids", "Trace_Ids.cfg", ev, wd)
+    if [i for i, _ in rej] != [2]:
+        raise C.ToolError(f"selftest Trace_Ids: {rej}")
+    return 0
